@@ -15,6 +15,8 @@ func Register(reg func(id, level string, f func(*load.Prog, *report.Report))) {
 	reg("C05", "proof", C05)
 	reg("C06", "other", C06)
 	reg("C07", "proof", C07)
+	reg("C08", "other", C08)
+	reg("C09", "other", C09)
 	reg("C10", "other", C10)
 	reg("C11", "proof", C11)
 	reg("C12", "other", C12)
